@@ -413,8 +413,8 @@ type BytesFrameReader struct {
 func NewBytesFrameReader(r io.Reader) (*BytesFrameReader, error) {
 	var version [2]byte
 
-	switch _, err := r.Read(version[:]); {
-	case errors.Is(err, io.EOF):
+	switch _, err := io.ReadFull(r, version[:]); {
+	case errors.Is(err, io.EOF), errors.Is(err, io.ErrUnexpectedEOF):
 	case err != nil:
 		return nil, errors.Wrap(err, "version")
 	}
